@@ -42,7 +42,13 @@ def binop (op : String) (a o : Bits) : Option String :=
     right-hand value could not be converted by `Bits(v)`) -/
 def parseMut? (toks : List String) : Option (Except Err Bits.MutOp) :=
   match toks with
-  | ["setint", i, v] => do let i ← parseInt? i; let v ← parseNat? v; pure (.ok (.setInt i v))
+  | ["setint", i, v] => do
+      let i ← parseInt? i
+      -- the right-hand value is an int or a bit vector compared by value (`v in (0,1)`, `v==0`, `v==1` in the code)
+      let v ← (match v.toList with
+        | 'b' :: _ => (parseBits? v).map (·.ival)
+        | _ => parseNat? v)
+      pure (.ok (.setInt i v))
   | ["setslice", s, e, st, v] => do
       let s ← parseOptInt? s; let e ← parseOptInt? e; let st ← parseOptInt? st
       let v ← parseOperand? v
